@@ -5,7 +5,6 @@ import (
 	"encoding/json"
 	"fmt"
 	"math"
-	"math/big"
 	"sort"
 	"strconv"
 	"sync"
@@ -65,20 +64,48 @@ func observeCoord(kind string, s int32) coordEvent {
 		e.RT, e.RTInvalid = i32(r.Semicircles()), b2i(r.Invalid())
 	}
 	e.DegBits = toInts(leBytes(math.Float64bits(deg), 8))
-	if f, err := strconv.ParseFloat(str, 64); err == nil {
-		// the printed decimal times 10^5, exactly (the string has at most 5 decimals)
-		r, _ := new(big.Rat).SetString(str)
-		r.Mul(r, big.NewRat(100000, 1))
-		if r.IsInt() {
-			e.Printed = r.Num().Int64()
-		} else {
-			e.Printed = int64(math.Round(f * 1e5))
-			e.PrintedInvalid = 2 // more than 5 decimals: reported through PrintedOK failing is not guaranteed; flag
-		}
+	if p, ok := parseScaled5(str); ok {
+		e.Printed = p
+	} else if _, err := strconv.ParseFloat(str, 64); err == nil {
+		e.PrintedInvalid = 2 // a number, but not a plain decimal with at most 5 decimals
 	} else {
 		e.PrintedInvalid = 1
 	}
 	return e
+}
+
+// parseScaled5 returns the printed decimal times 10^5, exactly.
+func parseScaled5(s string) (int64, bool) {
+	neg := false
+	i := 0
+	if i < len(s) && (s[i] == '-' || s[i] == '+') {
+		neg = s[i] == '-'
+		i++
+	}
+	var ip, fp int64
+	nd, nf := 0, 0
+	for ; i < len(s) && s[i] >= '0' && s[i] <= '9'; i++ {
+		ip = ip*10 + int64(s[i]-'0')
+		nd++
+	}
+	if i < len(s) && s[i] == '.' {
+		i++
+		for ; i < len(s) && s[i] >= '0' && s[i] <= '9'; i++ {
+			fp = fp*10 + int64(s[i]-'0')
+			nf++
+		}
+	}
+	if i != len(s) || nd == 0 || nd > 4 || nf > 5 {
+		return 0, false
+	}
+	for ; nf < 5; nf++ {
+		fp *= 10
+	}
+	v := ip*100000 + fp
+	if neg {
+		v = -v
+	}
+	return v, true
 }
 
 // clauseOK evaluates, natively and with integer arithmetic only, the clauses
@@ -135,8 +162,11 @@ func clauseOK(e coordEvent) (bad string) {
 	if e.PrintedInvalid != 0 {
 		return "printed form"
 	}
-	diff := new(big.Int).Sub(new(big.Int).Lsh(big.NewInt(e.Printed), 29), new(big.Int).Mul(big.NewInt(s*45), big.NewInt(100000)))
-	if diff.Abs(diff).Cmp(big.NewInt(2<<29)) > 0 {
+	diff := e.Printed<<29 - s*45*100000
+	if diff < 0 {
+		diff = -diff
+	}
+	if diff > 2<<29 {
 		return "printed form"
 	}
 	return ""
